@@ -34,7 +34,13 @@ RULE = (
   "with a reset_data mask or a reset_data_keyframe key array, have eq_active toggled, or bounce off the floor, so that their row count goes rows -> 0 -> rows while "
   "a keeper world (world 0 in 2 of 3 cases, else the last) keeps its rows; now and then all worlds are emptied at once. Every world "
   "is judged after every call, worlds with nefc == 0 included (qfrc_constraint must be the empty sum). Non-trivial: a world that "
-  "carried constraint force is judged with nefc == 0 while another world has rows."
+  "carried constraint force is judged with nefc == 0 while another world has rows. "
+  "kind=cut (cut-off solves): 2..4 worlds of a non-colliding chain (nv 2 or 4) with joint / fixed-tendon friction loss, opt.iterations "
+  "1..3 (sometimes 5 / 50), warm start on, 8 calls (step, or forward with qacc copied into qacc_warmstart); between calls each world's "
+  "qfrc_applied (5..25 x friction loss) reverses sign with probability 0.7, so warm-started friction rows jump from one saturated side to "
+  "the other within one iteration and the solve stops at its iteration limit; two cases of three are Newton/pyramidal (dense, sparse). "
+  "Every world is judged after every call whether or not the ITERATIONS overflow bit is set. Non-trivial: a friction row changed its "
+  "saturated side in a solve that ended at the iteration limit."
 )
 ASSUMPTIONS = [
   "sign and cone conventions are MuJoCo's documented ones (force >= 0 pushes out of the constraint; elliptic cone "
@@ -78,6 +84,12 @@ def cases(tier, seed):
   for i in range(40 if tier == "quick" else 400):
     c, s, j = combos[i % 8]
     out.append({"id": f"hist{seed}_{i}", "kind": "hist", "seed": seed * 100000 + 30000 + i, "cone": c, "solver": s, "jac": j, "keep0": int((i // 8) % 3 != 2), "weight": 2})
+  # cut-off solves (iteration limit 1..3, warm start, applied force reversing against dry friction): two cases of three are
+  # Newton/pyramidal (the incremental path that reconstructs qfrc_constraint from the gradient), the rest cycles the others
+  others = [cb for cb in combos if cb[:2] != ("pyramidal", "Newton")]
+  for i in range(36 if tier == "quick" else 360):
+    c, s, j = ("pyramidal", "Newton", ("dense", "sparse")[(i // 3) % 2]) if i % 3 != 2 else others[(i // 3) % 6]
+    out.append({"id": f"cut{seed}_{i}", "kind": "cut", "seed": seed * 100000 + 40000 + i, "cone": c, "solver": s, "jac": j, "weight": 2})
   for i in range(ngen):
     out.append({"id": f"gen{seed}_{i}", "kind": "gen", "seed": seed * 100000 + i, "settle": (0, 20)[i % 2], "exact_geoms": 0})
   for i in range(nscene):
@@ -97,6 +109,8 @@ def run_case(case):
 
   if case["kind"] == "hist":
     return run_hist(case)
+  if case["kind"] == "cut":
+    return run_cut(case)
   rec = core.Rec(case)
   rng = np.random.default_rng(case["seed"] + 11)
   if case["kind"] == "gen":
@@ -403,10 +417,134 @@ def run_hist(case):
   return rec.result()
 
 
+CUT_CALLS = 8
+
+
+def run_cut(case):
+  """Cut-off solves: a chain with joint / tendon friction loss, iteration limit 1..3 (now and then 5 / 50), warm start on.
+  Between calls each world's large applied generalized force (qfrc_applied, several times the friction loss) reverses
+  sign with probability 0.7, so warm-started friction rows sit saturated on one side and the first Newton/CG iteration
+  carries them to the other side; the solve stops at its iteration limit wherever it happens to be. The invariants do not
+  need convergence: every world is judged after every call, iteration-limit bit set or not."""
+  import warp as wp
+
+  import mujoco_warp as mjw
+
+  rec = core.Rec(case)
+  rng = np.random.default_rng(case["seed"] + 37)
+  xml, info = H.cut_scene(rng, case["cone"], case["solver"], case["jac"])
+  mjm = gen.compile_xml(xml)
+  if mjm is None:
+    rec.rejected = "mujoco compile"
+    return rec.result()
+  try:
+    m = mw.put_model(mjm)
+  except (NotImplementedError, ValueError) as e:
+    rec.rejected = f"put_model: {e}"[:200]
+    rec.count("rejected_put_model")
+    return rec.result()
+  nv = mjm.nv
+  combo = f"{case['solver']}:{case['cone']}:{'sparse' if m.is_sparse else 'dense'}"
+  nworld = int(rng.integers(2, 5))
+  mode = "step" if rng.random() < 0.5 else "forward+warmstart"  # forward(): the caller carries qacc over as the next warm start
+  flscale = max(max(info["fl"]), 0.2)
+  tau = rng.uniform(5.0, 25.0, size=(nworld, nv)) * flscale * rng.choice([-1.0, 1.0], size=(nworld, nv))
+  sign = rng.choice([-1.0, 1.0], size=nworld)
+  states = []
+  for w in range(nworld):
+    states.append(
+      {
+        "qpos": (np.array(mjm.qpos0) + rng.uniform(-0.5, 0.5, size=mjm.nq)).astype(np.float32),
+        "qvel": (rng.normal(size=nv) * 0.1).astype(np.float32),
+        "act": np.zeros(mjm.na, np.float32),
+        "ctrl": np.zeros(mjm.nu, np.float32),
+        "mocap_pos": np.zeros((mjm.nmocap, 3), np.float32),
+        "mocap_quat": np.zeros((mjm.nmocap, 4), np.float32),
+        "qfrc_applied": (sign[w] * tau[w]).astype(np.float32),
+        "xfrc_applied": np.zeros((mjm.nbody, 6), np.float32),
+        "eq_active": np.zeros(mjm.neq, dtype=bool),
+        "time": np.float32(0.0),
+      }
+    )
+  d = mw.make_data(mjm, m, states, njmax=C06.NJMAX[0], nconmax=64)
+  small = info["iterations"] <= 3
+  prev_side = [None] * nworld
+  nontriv = False
+  for k in range(CUT_CALLS):
+    if k:
+      for w in range(nworld):
+        if rng.random() < 0.7:
+          sign[w] = -sign[w]
+        if rng.random() < 0.3:
+          tau[w] *= rng.uniform(0.6, 1.5)
+      wp.copy(d.qfrc_applied, wp.array((sign[:, None] * tau).astype(np.float32), dtype=float))
+    ws = np.array(mw.npy(d.qacc_warmstart), dtype=np.float64)[:, :nv]
+    if mode == "step":
+      mjw.step(m, d)
+    else:
+      mjw.forward(m, d)
+    if not np.all(np.isfinite(mw.npy(d.qacc))) or not np.all(np.isfinite(mw.npy(d.qpos))):
+      rec.count("rollout_diverged(stopped)")
+      break
+    ovf = mw.npy(d.overflow)
+    for w in range(nworld):
+      rows = mw.efc_rows(mjm, m, d, w)
+      if not E.capacity_ok(d, w, rows):
+        rec.count("evaluations_capacity_exceeded")
+        continue
+      n = E.admissibility(rec, mjm, m, d, w, rows=rows, contact_force=False, sig_prefix="cut:", start=ws[w], judge_empty=True, start_force=True)
+      rec.cover("evaluations", 1)
+      rec.cover(f"evaluations:{combo}", 1)
+      rec.cover("evaluations_after:" + ("step" if mode == "step" else "forward"), 1)
+      rec.cover("cut:evaluations", 1)
+      rec.cover(f"cut:evaluations:{combo}", 1)
+      cut = bool(int(ovf[w]) & E.OVF_ITER)
+      if cut:
+        rec.cover("cut:evaluations_at_iteration_limit", 1)
+        rec.cover(f"cut:evaluations_at_iteration_limit:{combo}", 1)
+      if not n:
+        continue
+      t = np.asarray(rows["type"], dtype=int)
+      f = np.asarray(rows["force"], dtype=np.float64)
+      fl = np.asarray(rows["frictionloss"], dtype=np.float64)
+      fric = (t == E.T_FDOF) | (t == E.T_FTEN)
+      side = np.where(fric & (np.abs(f) >= fl * (1 - 1e-6)), np.sign(f), 0.0)
+      if prev_side[w] is not None and len(prev_side[w]) == len(side):
+        nflip = int(((side * prev_side[w]) < 0).sum())
+        if nflip:
+          rec.cover("cut:friction_rows_changed_saturated_side", nflip)
+          if cut:
+            rec.cover("cut:friction_rows_changed_saturated_side_at_iteration_limit", nflip)
+            rec.cover(f"cut:friction_rows_changed_saturated_side_at_iteration_limit:{combo}", nflip)
+            nontriv = True
+      prev_side[w] = side
+    if mode != "step":
+      wp.copy(d.qacc_warmstart, d.qacc)
+  rec.cover("kind:cut", 1)
+  rec.cover("cut:iterations", str(info["iterations"]))
+  rec.cover("cut:mode", mode)
+  if info["tendon"]:
+    rec.cover("features", "cut:tendon_frictionloss")
+  if info["limits"]:
+    rec.cover("features", "cut:joint_limits")
+  if nontriv:
+    rec.nontrivial(xml, case["seed"], *[s["qpos"] for s in states])
+  rec.sample = {"kind": "cut", "model": f"seed {case['seed']}", "nv": nv, "nworld": nworld, "combo": combo, "iterations": info["iterations"], "mode": mode, "nefc_last": [int(x) for x in mw.npy(d.nefc)]}
+  return rec.result()
+
+
 def requirements(agg, tier):
   unmet = []
   cov = agg["cover"]
   q = tier == "quick"
+  # cut-off solves: friction rows that changed their saturated side in a solve that stopped at its iteration limit
+  for j in ("dense", "sparse"):
+    k = f"cut:friction_rows_changed_saturated_side_at_iteration_limit:Newton:pyramidal:{j}"
+    if cov.get(k, 0) < (20 if q else 200):
+      unmet.append(f"{k}: {cov.get(k, 0)} < {20 if q else 200}")
+  for k, v in {"cut:evaluations_at_iteration_limit": 100, "cut:friction_rows_changed_saturated_side_at_iteration_limit": 60}.items():
+    if cov.get(k, 0) < v:
+      unmet.append(f"{k}: {cov.get(k, 0)} < {v}")
   # histories: a world that carried constraint force loses all its rows while another world keeps rows
   for s in ("Newton", "CG"):
     for c in ("pyramidal", "elliptic"):
